@@ -178,6 +178,11 @@ def rec_star(seed):
         minsep = 0.0
         thr = rng.choice([0.3, 0.8])
         mask = None
+    elif rng.random() < 0.25:
+        # an over-subtracted frame: most sources have a non-positive pixel sum (flux), and `brightest` cuts among them
+        data = data - rng.choice([12.0, 25.0, 60.0])
+        brightest = rng.choice([3, 4, 6])
+        peakmax = None
     out = []
 
     def mk(br):
